@@ -134,7 +134,7 @@ fn main() {
                 rt.block_on(rtc::scenario(s, &o));
             }
             "robs_err" => {
-                rt.block_on(robs::err_scenario(s, get("coll", 4), get("case", 5)));
+                rt.block_on(robs::err_scenario(s, get("coll", 4), get("case", 6)));
             }
             "robs_list" => {
                 rt.block_on(robs::list_scenario(s));
